@@ -34,7 +34,7 @@ def run(ctx):
         return
     r = ctx.run([drv, "-out", trace])
     ctx.log(r.stdout.strip())
-    mism, n = ctx.validate_events("Trace_MAC", trace)
+    mism, n = ctx.validate_events("Trace_MAC", trace, max_findings=4)
     ctx.cov["traces_validated_against_impl"] += 1
     ctx.cov["events"] = n
     lines = open(trace).read().splitlines()
